@@ -359,6 +359,7 @@ func (g *gen) lexerTables() {
 		sc = append(sc, fmt.Sprintf("(%s, %s)", e.name, coqBytes(e.val)))
 		scjs[e.name] = e.val
 	}
+	sc = keepOrder("special_chars", sc)
 	g.p("Definition special_chars : list (N * bstr) := [%s].\n\n", strings.Join(sc, "; "))
 	g.js["special_chars"] = scjs
 
@@ -382,7 +383,7 @@ func (g *gen) lexerTables() {
 	})
 	set, usePat, _ := g.itemSet("parse/lexer.go itemType.endsTerm", "itemType.endsTerm", patSet, perr, n, ev, everrs)
 	if !usePat {
-		ids = namesOf(set, names)
+		ids = keepOrder("ends_term_set", namesOf(set, names))
 	}
 	g.p("(* parse/lexer.go itemType.endsTerm: the lastEmit types after which '-' is the binary operator;\n   lexNegative tests `!lastType.endsTerm()` with lastType = l.lastEmit.typ *)\n")
 	g.p("Definition ends_term_set : list N := [%s].\n", strings.Join(ids, "; "))
@@ -780,6 +781,18 @@ func (g *gen) lexerPredicates() {
 				}
 				return false
 			}
+		}
+		if f := known[name]; f != nil {
+			preds := map[string]func(int64) bool{
+				"uni_letter": func(r int64) bool { return r >= -0x80000000 && r <= 0x7fffffff && unicode.IsLetter(rune(r)) },
+				"uni_digit":  func(r int64) bool { return r >= -0x80000000 && r <= 0x7fffffff && unicode.IsDigit(rune(r)) },
+			}
+			for k, kf := range known {
+				if k != name {
+					preds["gen_"+k] = kf
+				}
+			}
+			body = keepRuneSpelling("gen_"+name, p, body, f, preds)
 		}
 		if name == "isAlphaNumeric" {
 			g.p("Definition gen_%s (uni_letter uni_digit : Z -> bool) (%s : Z) : bool := %s%%Z.\n", name, p, body)
